@@ -40,10 +40,10 @@ theorem send_invDen {inp : RunInput} [NoFailDeliver inp] {s s0 : Sys} {node : Op
   obtain ⟨_, hst⟩ := send_inv1 h2.inv1 (fun p hp => h2.sb p (by rw [hnode, hp])) hs
   exact ⟨send_invN h.nodeS hs, h.den.frame hst [] (by simpa using (send_outer hs).1.1) (by simp)⟩
 
-theorem select_invDen {inp : RunInput} {s : Sys} {n : Name} {nd : Node} (hG : InvG inp s) (h2 : Inv2 inp s) (h : InvDen inp s)
+theorem select_invDen {inp : RunInput} [NoFailDeliver inp] {s : Sys} {n : Name} {nd : Node} (hG : InvG inp s) (h2 : Inv2 inp s) (h : InvDen inp s)
     (haw : awaiting s) (hsusp : s.susp = some (.node n)) (hn : s.nodes n = some nd)
     (hd : selDecision inp n nd ≠ .assertFail) : InvDen inp (applySel inp s n nd (selDecision inp n nd)) := by
-  refine ⟨?_, invE_select h.den h.nodeS h2 hG.dc haw hsusp hn hd⟩
+  refine ⟨?_, invE_select h.den h.nodeS h2 hG.dc haw hsusp hn (DelivF.noFail s nd) hd⟩
   exact invN_congr (invN_status (selStatus (selDecision inp n nd)) h.nodeS hn (selDecision_unfinished hd)
     (selStatus_ne_none hd)) (applySel_nodes inp s n nd _ hd)
 
